@@ -110,7 +110,21 @@ func c12Cases(tier string) []Case {
 	// (d) store faults at every call
 	two := c10Case("meta-origin x2", []string{`account $x = meta(@a, "k")`, `account $y = meta(@b, "k")`}, []string{send("%N", "{ $x $y }", "@d")}, nil, "a.k=b,b.k=a", "")
 	cases = append(cases, Case{ID: "C12 store-fault " + two.ID[4:], Pkg: "", Fn: "ZZC12Fault", Args: two.Args, Tag: "store-fault"})
+	// many accounts in one query (a store may be asked in several calls): the accounts are unknown
+	// to the store, so their balances are concrete zeros and only the amount is symbolic
+	for _, n := range []int{20, 40} {
+		var names, srcs []string
+		for i := 1; i <= n; i++ {
+			names = append(names, fmt.Sprintf("u%02d", i))
+			srcs = append(srcs, fmt.Sprintf("@u%02d", i))
+		}
+		many := c10Case("many-accounts", nil, []string{send("%N", "{ "+strings.Join(srcs, " ")+" @world }", "@d")}, map[string][2]string{"_omit": {"", strings.Join(names, ",")}}, "", "")
+		cases = append(cases, Case{ID: "C12 store-fault " + many.ID[4:], Pkg: "", Fn: "ZZC12Fault", Args: many.Args, Tag: "store-fault"})
+	}
 	for _, c := range c10Cases(tier) {
+		if tier != "thorough" && strings.HasPrefix(c.Tag, "generated-source-shapes") {
+			continue
+		}
 		cases = append(cases, Case{ID: "C12 store-fault " + c.ID[4:], Pkg: "", Fn: "ZZC12Fault", Args: c.Args, Tag: "store-fault"})
 	}
 	// (e) nil maps from the store
